@@ -1,4 +1,6 @@
 import AffVerif.Proofs.VecLemmas
+import AffVerif.Proofs.ArithLift
+import AffVerif.Proofs.SchemaLemmas
 /-!
 # C16 — affine functions obey their algebra and named constructors their names
 
@@ -22,6 +24,66 @@ theorem C16_stack (f g : Aff α) (x : List α) (hf : f.WF) :
   simp only [matVec, List.map_append]
   rw [vadd_append]
   simp [hf.2]
+
+section ordered
+variable {α : Type} [Field α] [LinearOrder α] [IsStrictOrderedRing α]
+
+/-- `f + g` is the point-wise sum (operands of equal shape) -/
+theorem C16_add_pointwise (f g : Aff α) (x : List α) (h : SameRows f.mat g.mat) :
+    (f.add g).apply x = vadd (f.apply x) (g.apply x) := Aff.apply_add f g x h
+
+/-- `f − g` is the point-wise difference -/
+theorem C16_sub_pointwise (f g : Aff α) (x : List α) (h : SameRows f.mat g.mat) :
+    (f.sub g).apply x = vsub (f.apply x) (g.apply x) := Aff.apply_sub f g x h
+
+/-- `−f` is the point-wise negation -/
+theorem C16_neg_pointwise (f : Aff α) (x : List α) : f.neg.apply x = vneg (f.apply x) := Aff.apply_neg f x
+
+/-- `*`, `/`, `%` (any binary operator) act coefficient-wise on matrix and bias -/
+theorem C16_coefficientwise (op : α → α → α) (f g : Aff α) :
+    (f.zipWith op g).bias = List.zipWith op f.bias g.bias ∧
+    (f.zipWith op g).mat = matZip (fun a b => List.zipWith op a b) f.mat g.mat := ⟨rfl, rfl⟩
+
+/-- `identity(n)` is the identity -/
+theorem C16_identity (n : Nat) (x : List α) (hx : x.length = n) : (Aff.identity n : Aff α).apply x = x :=
+  apply_identity n x hx
+
+/-- `zero_idx(n, i)` sets component `i` to zero and leaves the others unchanged -/
+theorem C16_zero_idx (n i : Nat) (x : List α) (hx : x.length = n) :
+    (Aff.zeroIdx n i : Aff α).apply x = x.set i 0 := apply_zeroIdx n i x hx
+
+/-- `constant(n, v)` always returns `[v]` -/
+theorem C16_constant (n : Nat) (v : α) (x : List α) : (Aff.constant n v : Aff α).apply x = [v] := by
+  simp [Aff.constant, Aff.apply, matVec]
+
+/-- `unit(n, i)` returns component `i` -/
+theorem C16_unit (n i : Nat) (x : List α) (hi : i < n) : (Aff.unit n i : Aff α).apply x = [x.getD i 0] := by
+  simp [Aff.unit, Aff.apply, matVec, dot_unitVec, hi]
+
+/-- `translation(n, offset)` adds the offset -/
+theorem C16_translation (n : Nat) (off x : List α) (hx : x.length = n) :
+    (Aff.translation n off : Aff α).apply x = vadd x off := by
+  unfold Aff.translation Aff.apply
+  simp only
+  have := apply_identity n x hx
+  unfold Aff.identity Aff.apply at this
+  simp only at this
+  have h2 : matVec (eye n) x = x := by
+    have h3 : vadd (matVec (eye n) x) (zeros n) = x := this
+    have hl : (matVec (eye n : Mat α) x).length = n := by simp [matVec, eye]
+    rw [vadd_zeros_right _ n hl] at h3
+    exact h3
+  rw [h2]
+where
+  vadd_zeros_right (v : List α) (n : Nat) (h : v.length = n) : vadd v (zeros n) = v := by
+    induction v generalizing n with
+    | nil => simp
+    | cons a as ih =>
+      cases n with
+      | zero => simp at h
+      | succ n => simp only [zeros_succ, vadd_cons, add_zero]; rw [ih n (by simpa using h)]
+
+end ordered
 
 example : (Aff.compose (⟨[[1, 2]], [3], 2⟩ : Aff Int) ⟨[[1, 0], [0, 1]], [1, 1], 2⟩).apply [5, 7]
     = (⟨[[1, 2]], [3], 2⟩ : Aff Int).apply ((⟨[[1, 0], [0, 1]], [1, 1], 2⟩ : Aff Int).apply [5, 7]) := by decide
